@@ -136,6 +136,8 @@ enum TransientSourceState<T> {
     Register(T),
     /// The source needs to be disabled but kept.
     Disable(T),
+    /// The source has been disabled (it is unregistered) and is kept.
+    Disabled(T),
     /// The source needs to be removed from the loop.
     Remove(T),
     /// The source is being replaced by another. For most API purposes (eg.
@@ -180,6 +182,7 @@ impl<T> TransientSourceState<T> {
             | Self::Register(source)
             | Self::Remove(source)
             | Self::Disable(source)
+            | Self::Disabled(source)
             | Self::Replace { new: source, .. } => replacer(source),
             Self::None => return,
         };
@@ -197,6 +200,7 @@ impl<T> TransientSource<T> {
             TransientSourceState::Keep(source)
             | TransientSourceState::Register(source)
             | TransientSourceState::Disable(source)
+            | TransientSourceState::Disabled(source)
             | TransientSourceState::Replace { new: source, .. } => Some(f(source)),
             TransientSourceState::Remove(_) | TransientSourceState::None => None,
         }
@@ -215,6 +219,11 @@ impl<T> TransientSource<T> {
     /// your own event source's `process_events()`, and the source will be
     /// unregistered as needed after it exits.
     pub fn remove(&mut self) {
+        if let TransientSourceState::Disabled(_) = self.state {
+            // Already unregistered: nothing is left to do in the loop, drop it right away.
+            self.state = TransientSourceState::None;
+            return;
+        }
         self.state.replace_state(TransientSourceState::Remove);
     }
 
@@ -229,6 +238,11 @@ impl<T> TransientSource<T> {
     /// your own event source's `process_events()`, and the sources will be
     /// registered and unregistered as needed after it exits.
     pub fn replace(&mut self, new: T) {
+        if let TransientSourceState::Disabled(_) = self.state {
+            // The old source is already unregistered: it does not need to be kept around.
+            self.state = TransientSourceState::Register(new);
+            return;
+        }
         self.state
             .replace_state(|old| TransientSourceState::Replace { new, old });
     }
@@ -304,6 +318,7 @@ impl<T: crate::EventSource> crate::EventSource for TransientSource<T> {
             }
             TransientSourceState::Register(source)
             | TransientSourceState::Disable(source)
+            | TransientSourceState::Disabled(source)
             | TransientSourceState::Replace { new: source, .. } => {
                 source.register(poll, token_factory)?;
                 self.state.replace_state(TransientSourceState::Keep);
@@ -330,7 +345,11 @@ impl<T: crate::EventSource> crate::EventSource for TransientSource<T> {
             }
             TransientSourceState::Disable(source) => {
                 source.unregister(poll)?;
+                // Remember that it is unregistered now, so that later (re-/un-)registrations
+                // of the parent do not unregister it a second time.
+                self.state.replace_state(TransientSourceState::Disabled);
             }
+            TransientSourceState::Disabled(_) => (),
             TransientSourceState::Remove(source) => {
                 source.unregister(poll)?;
                 self.state.replace_state(|_| TransientSourceState::None);
@@ -351,6 +370,7 @@ impl<T: crate::EventSource> crate::EventSource for TransientSource<T> {
             TransientSourceState::Keep(source)
             | TransientSourceState::Register(source)
             | TransientSourceState::Disable(source) => source.unregister(poll)?,
+            TransientSourceState::Disabled(_) => (),
             TransientSourceState::Remove(source) => {
                 source.unregister(poll)?;
                 self.state.replace_state(|_| TransientSourceState::None);
